@@ -1,6 +1,7 @@
 (* DelegProofs.v — lemmas and proofs about theories/Deleg.v (C12). *)
 From stdpp Require Import gmap list.
-From Coq Require Import ZArith NArith Lia.
+From Coq Require Import ZArith NArith Lia ZifyBool ZifyNat ZifyN.
+Ltac Zify.zify_post_hook ::= Z.div_mod_to_equations.
 From OL Require Import theories.Deleg.
 Local Open Scope Z_scope.
 
@@ -462,3 +463,242 @@ Proof.
   specialize (H1 a). unfold rbook in H1. simpl in H1. fold s in H1. split; [lia|].
   intros Hr Ha. specialize (H2 Hr Ha a). fold s in H2. lia.
 Qed.
+
+(* ------------------------------------------------------------------ *)
+(* 4. the scans on the key strings: which keys does a block visit?     *)
+(* ------------------------------------------------------------------ *)
+Section Strings.
+Local Open Scope N_scope.
+
+Lemma lex_range_prefix d : forall k hi, lex_le d k = true -> lex_lt k (d ++ [hi]) = true -> exists rest, k = d ++ rest.
+Proof.
+  induction d as [|x d IH]; intros k hi H1 H2; [by exists k|].
+  destruct k as [|y k]; [simpl in H1; discriminate|].
+  unfold lex_le in H1. simpl in H1, H2.
+  destruct (y <? x) eqn:E1; [discriminate|].
+  destruct (y =? x) eqn:E2; [|discriminate H2].
+  apply N.eqb_eq in E2; subst. destruct (IH k hi) as [r ->]; [exact H1| exact H2 |]. by exists r.
+Qed.
+
+Lemma strip_sep_snoc l c : strip_sep (l ++ [c]) = if (c =? SEP) then l else l ++ [c].
+Proof.
+  induction l as [|x l IH]; [simpl; by destruct (c =? SEP)|].
+  change ((x :: l) ++ [c]) with (x :: (l ++ [c])).
+  destruct (l ++ [c]) as [|z t] eqn:E; [by destruct l|].
+  change (strip_sep (x :: z :: t)) with (x :: strip_sep (z :: t)). rewrite IH.
+  by destruct (c =? SEP).
+Qed.
+
+Definition isdigit (c : N) : Prop := 48 <= c <= 57.
+
+Lemma dec_le_digits f : forall n, Forall isdigit (dec_le f n).
+Proof.
+  induction f as [|f IH]; intros n; cbn [dec_le]; [constructor|].
+  constructor.
+  - unfold isdigit. assert (n mod 10 < 10) by (apply N.mod_upper_bound; done). lia.
+  - destruct (n / 10 =? 0); [constructor | apply IH].
+Qed.
+
+Lemma dec_digits n : Forall isdigit (dec n).
+Proof. unfold dec. apply Forall_rev, dec_le_digits. Qed.
+
+Lemma dec_snoc n : exists l, dec n = l ++ [48 + n mod 10].
+Proof. unfold dec. simpl. eexists. reflexivity. Qed.
+
+Lemma nosep_prefix d : forall e rest s, Forall isdigit d -> d ++ rest = e ++ SEP :: s -> exists t, e = d ++ t.
+Proof.
+  induction d as [|x d IH]; intros e rest s Hd H; [by exists e|].
+  inversion Hd as [|? ? Hx Hd']; subst.
+  destruct e as [|y e]; simpl in H.
+  - inversion H; subst. unfold isdigit, SEP in Hx. lia.
+  - inversion H; subst. destruct (IH e rest s Hd' H2) as [t ->]. by exists t.
+Qed.
+
+Fixpoint vle (l : bytes) : N := match l with [] => 0 | c :: l' => (c - 48) + 10 * vle l' end.
+
+Lemma vle_dec_le f : forall n, n < 2 ^ N.of_nat f -> vle (dec_le f n) = n.
+Proof.
+  induction f as [|f IH]; intros n Hn.
+  - simpl in *. lia.
+  - rewrite Nat2N.inj_succ, N.pow_succ_r' in Hn. cbn [dec_le vle].
+    pose proof (N.div_mod' n 10) as Hdm. assert (n mod 10 < 10) by (apply N.mod_upper_bound; done).
+    destruct (n / 10 =? 0) eqn:E.
+    + apply N.eqb_eq in E. cbn [vle]. lia.
+    + rewrite IH; [lia|]. apply N.eqb_neq in E. lia.
+Qed.
+
+Lemma dec_val n : vle (rev (dec n)) = n.
+Proof.
+  unfold dec. rewrite rev_involutive. apply vle_dec_le.
+  rewrite Nat2N.inj_succ, N2Nat.id.
+  destruct (N.eq_dec n 0) as [->|Hn]; [vm_compute; reflexivity|].
+  apply N.log2_spec. lia.
+Qed.
+
+Lemma vle_app l1 : forall l2, vle (l1 ++ l2) = vle l1 + 10 ^ N.of_nat (length l1) * vle l2.
+Proof.
+  induction l1 as [|c l1 IH]; intros l2; [cbn [app vle length]; change (N.of_nat 0) with 0; rewrite N.pow_0_r; lia|].
+  simpl length. rewrite Nat2N.inj_succ, N.pow_succ_r'. cbn [app vle]. rewrite IH. rewrite N.mul_add_distr_l, !N.mul_assoc. lia.
+Qed.
+
+Lemma dec_prefix_arith h n t : dec n = dec h ++ t -> n = h \/ 10 * h <= n.
+Proof.
+  intros H. pose proof (dec_val n) as Hn. rewrite H, rev_app_distr, vle_app, dec_val in Hn.
+  destruct t as [|c t]; [left; cbn [rev app vle length] in Hn; change (N.of_nat 0) with 0 in Hn; rewrite N.pow_0_r in Hn; lia|right].
+  rewrite rev_length in Hn. simpl length in Hn. rewrite Nat2N.inj_succ, N.pow_succ_r' in Hn.
+  assert (1 <= 10 ^ N.of_nat (length t)) by (pose proof (N.pow_nonzero 10 (N.of_nat (length t))); lia).
+  nia.
+Qed.
+
+Lemma scan_und_char astr h n a : scan_und astr h n a = true -> n = h \/ 10 * h <= n.
+Proof.
+  unfold scan_und, in_range, rangefix, pkey_str. intros H. apply andb_true_iff in H as [H1 H2].
+  destruct (dec_snoc h) as [l Hl].
+  assert (Hs : strip_sep (PFX_P ++ dec h) = PFX_P ++ dec h).
+  { rewrite Hl, app_assoc, strip_sep_snoc.
+    destruct (48 + h mod 10 =? SEP) eqn:E; [|done]. apply N.eqb_eq in E. unfold SEP in E.
+    assert (h mod 10 < 10) by (apply N.mod_upper_bound; done). lia. }
+  rewrite Hs in H2.
+  destruct (lex_range_prefix _ _ _ H1 H2) as [rest Hr].
+  rewrite <- app_assoc in Hr. apply app_inv_head in Hr. symmetry in Hr.
+  destruct (nosep_prefix _ _ _ _ (dec_digits h) Hr) as [t Ht].
+  by apply (dec_prefix_arith h n t).
+Qed.
+
+Lemma lex_range_sep i : forall k lo hi, lex_le (i ++ [lo]) k = true -> lex_lt k (i ++ [hi]) = true ->
+  exists c rest, k = i ++ c :: rest /\ lo <= c.
+Proof.
+  induction i as [|x i IH]; intros k lo hi H1 H2.
+  - destruct k as [|c rest]; [simpl in H1; discriminate|]. exists c, rest. split; [done|].
+    unfold lex_le in H1. simpl in H1. destruct (c <? lo) eqn:E; [discriminate|]. apply N.ltb_ge in E. lia.
+  - destruct k as [|y k]; [simpl in H1; discriminate|].
+    unfold lex_le in H1. simpl in H1, H2.
+    destruct (y <? x) eqn:E1; [discriminate|].
+    destruct (y =? x) eqn:E2; [|discriminate H2].
+    apply N.eqb_eq in E2; subst. destruct (IH k lo hi) as (c & r & -> & Hc); [exact H1| exact H2 |].
+    by exists c, r.
+Qed.
+
+Lemma digits_sep_eq d : forall e s c rest, Forall isdigit d -> Forall isdigit e -> SEP <= c ->
+  e ++ SEP :: s = d ++ c :: rest -> e = d.
+Proof.
+  induction d as [|x d IH]; intros e s c rest Hd He Hc H.
+  - destruct e as [|y e]; [done|]. inversion He as [|? ? Hy _]; subst. simpl in H. inversion H; subst.
+    unfold isdigit, SEP in *. lia.
+  - inversion Hd as [|? ? Hx Hd']; subst. destruct e as [|y e]; simpl in H; inversion H; subst.
+    + unfold isdigit, SEP in Hx. lia.
+    + inversion He; subst. f_equal. by apply (IH e s c rest).
+Qed.
+
+Lemma dec_inj n h : dec n = dec h -> n = h.
+Proof. intros H. rewrite <- (dec_val n), <- (dec_val h), H. done. Qed.
+
+Lemma scan_rw_exact astr h n a : scan_rw astr h n a = true -> n = h.
+Proof.
+  unfold scan_rw, in_range, rangefix, pkey_str. intros H. apply andb_true_iff in H as [H1 H2].
+  replace (PFX_R ++ dec h ++ [SEP]) with ((PFX_R ++ dec h) ++ [SEP]) in * by (by rewrite <- app_assoc).
+  rewrite strip_sep_snoc, N.eqb_refl in H2.
+  destruct (lex_range_sep _ _ _ _ H1 H2) as (c & rest & Hr & Hc).
+  rewrite <- app_assoc in Hr. apply app_inv_head in Hr.
+  apply dec_inj. by apply (digits_sep_eq (dec h) (dec n) (astr a) c rest (dec_digits h) (dec_digits n) Hc).
+Qed.
+
+Lemma collides_rw_false astr h (p : pmap) : collides (scan_rw astr) h p = false.
+Proof.
+  unfold collides. apply negb_false_iff, bool_decide_eq_true. intros [n a] v _. simpl.
+  destruct (scan_rw astr h n a) eqn:E; [|done]. apply scan_rw_exact in E. subst. by rewrite N.eqb_refl.
+Qed.
+
+(* invariant of chains whose pending entries all stem from transactions *)
+Definition inv_tx (s : st) : Prop :=
+  1 <= height s /\ matk s <= 18 /\ collided s = false /\
+  forall n a v, pend s !! (n, a) = Some v -> n <= height s + matk s.
+
+Lemma inv_tx_no_collision astr s : inv_tx s -> collides (scan_und astr) (height s + 1) (pend s) = false.
+Proof.
+  intros (Hh & Hk & _ & Hp). unfold collides. apply negb_false_iff, bool_decide_eq_true.
+  intros [n a] v Hl. simpl. specialize (Hp n a v Hl).
+  destruct (scan_und astr (height s + 1) n a) eqn:E; [|done].
+  apply scan_und_char in E. destruct E as [-> | E]; [by rewrite N.eqb_refl|]. lia.
+Qed.
+
+Lemma own_zero_lookup h (p : pmap) key v : own_zero h p !! key = Some v -> exists v0, p !! key = Some v0.
+Proof.
+  unfold own_zero, pmap in *. rewrite map_lookup_imap. destruct (p !! key) eqn:E; [by eexists|done].
+Qed.
+
+Lemma step_inv_tx astr s o : inv_tx s -> inv_tx (step astr s o).1.
+Proof.
+  intros I. pose proof I as (Hh & Hk & Hc & Hp).
+  destruct o as [accr|a amt fee|a amt fee|a amt fee|a amt fee|a amt fee]; simpl.
+  - rewrite (mature_nocoll _ _ _ _ (inv_tx_no_collision astr s I)).
+    rewrite (mature_nocoll _ _ _ _ (collides_rw_false astr _ _)). simpl.
+    rewrite (inv_tx_no_collision astr s I), (collides_rw_false astr), Hc. simpl.
+    unfold inv_tx; simpl. split; [lia|]. split; [lia|]. split; [done|].
+    intros n a v Hl. apply own_zero_lookup in Hl as [v0 Hl]. specialize (Hp n a v0 Hl). lia.
+  - destruct ((amt <? 0)%Z || (bal s a - amt <? 0)%Z); [done|].
+    match goal with |- context [charge ?s0 ?s1 ?a ?f] =>
+      destruct (charge_proj s0 s1 a f) as [-> | (E1 & E2 & E3 & _ & _ & _ & _ & _ & E9 & _)] end; [done|].
+    unfold inv_tx. rewrite E1, E2, E3, E9. simpl. done.
+  - destruct ((aget (active s) a - amt <? 0)%Z || (pool s - amt <? 0)%Z); [done|].
+    match goal with |- context [charge ?s0 ?s1 ?a ?f] =>
+      destruct (charge_proj s0 s1 a f) as [-> | (E1 & E2 & E3 & _ & _ & _ & _ & _ & E9 & _)] end; [done|].
+    unfold inv_tx. rewrite E1, E2, E3, E9. simpl. repeat split; try done.
+    intros n a' v Hl. unfold pmap in *. apply lookup_insert_Some in Hl as [[Hl _]|[_ Hl]].
+    + inversion Hl; subst. lia.
+    + by apply (Hp n a' v).
+  - destruct (rew s a - amt <? 0)%Z; [done|].
+    match goal with |- context [charge ?s0 ?s1 ?a ?f] =>
+      destruct (charge_proj s0 s1 a f) as [-> | (E1 & E2 & E3 & _ & _ & _ & _ & _ & E9 & _)] end; [done|].
+    unfold inv_tx. rewrite E1, E2, E3, E9. simpl. done.
+  - destruct (rew s a - amt <? 0)%Z; [done|].
+    match goal with |- context [charge ?s0 ?s1 ?a ?f] =>
+      destruct (charge_proj s0 s1 a f) as [-> | (E1 & E2 & E3 & _ & _ & _ & _ & _ & E9 & _)] end; [done|].
+    unfold inv_tx. rewrite E1, E2, E3, E9. simpl. done.
+  - destruct (bal s a - amt <? 0)%Z; [done|].
+    match goal with |- context [charge ?s0 ?s1 ?a ?f] =>
+      destruct (charge_proj s0 s1 a f) as [-> | (E1 & E2 & E3 & _ & _ & _ & _ & _ & E9 & _)] end; [done|].
+    unfold inv_tx. rewrite E1, E2, E3, E9. simpl. done.
+Qed.
+
+Lemma run_inv_tx astr ops : forall s, inv_tx s -> inv_tx (run astr s ops).
+Proof.
+  induction ops as [|o ops IH]; intros s I; [done|]. unfold run in *. simpl. by apply IH, step_inv_tx.
+Qed.
+
+(* From a genesis WITHOUT pending undelegations, with maturity period k <= 18, no scan ever
+   collides — for every history that starts with a BeginBlock (transactions live in blocks). *)
+Lemma no_collision_from_empty_genesis astr k b pl ac rw rp accr ops :
+  k <= 18 ->
+  trig_collision astr (genesis k b pl ac ∅ rw rp) (Begin accr :: ops) = false.
+Proof.
+  intros Hk. unfold trig_collision.
+  change (run astr ?s (?o :: ?l)) with (run astr (step astr s o).1 l).
+  apply run_inv_tx. simpl.
+  assert (C1 : collides (scan_und astr) (0 + 1) (∅ : pmap) = false).
+  { unfold collides. apply negb_false_iff, bool_decide_eq_true. apply map_Forall_empty. }
+  rewrite (mature_nocoll _ _ _ _ C1), (mature_nocoll _ _ _ _ (collides_rw_false astr _ _)). simpl.
+  rewrite C1, (collides_rw_false astr). simpl.
+  unfold inv_tx; simpl. split; [lia|]. split; [lia|]. split; [done|].
+  intros n a v Hl. apply own_zero_lookup in Hl as [v0 Hl]. unfold pmap in *. by rewrite lookup_empty in Hl.
+Qed.
+
+Lemma pget_empty n a : pget (∅ : pmap) n a = 0%Z.
+Proof. unfold pget, pmap. by rewrite lookup_empty. Qed.
+
+Lemma paid_once_from_empty_genesis astr k b pl ac rw rp accr ops :
+  1 <= k <= 18 ->
+  let s := run astr (genesis k b pl ac ∅ rw rp) (Begin accr :: ops) in
+  forall n a,
+    (1 <= n <= height s -> paid s n a = und s n a) /\
+    (height s < n -> paid s n a = 0%Z /\ pget (pend s) n a = und s n a).
+Proof.
+  intros [Hk1 Hk2] s n a.
+  pose proof (paid_once_partial astr k b pl ac ∅ rw rp (Begin accr :: ops) Hk1
+                (no_collision_from_empty_genesis astr k b pl ac rw rp accr ops Hk2) n a) as H.
+  rewrite pget_empty in H. fold s in H.
+  destruct H as [H1 H2]. split; intros Hn; [rewrite (H1 Hn); lia|].
+  destruct (H2 Hn) as [-> ->]. split; lia.
+Qed.
+
+End Strings.
